@@ -4,7 +4,37 @@
 -/
 import AnthemModel.Syntax.Wire
 import AnthemModel.Model.Gamma
+import AnthemModel.Model.Simplify
+import Driver.Search
 open Anthem
+
+def bad : Sexp := .list [.atom "bad-request"]
+
+def rewriteByName : String → Option (Formula → Formula)
+  | "evaluate_comparisons" => some evaluateComparisons
+  | "apply_negation_definition_inverse" => some applyNegationDefinitionInverse
+  | "apply_reverse_implication_definition" => some applyReverseImplicationDefinition
+  | "apply_equivalence_definition_inverse" => some applyEquivalenceDefinitionInverse
+  | "remove_identities" => some removeIdentities
+  | "remove_annihilations" => some removeAnnihilations
+  | "remove_idempotences" => some removeIdempotences
+  | "remove_orphaned_variables" => some removeOrphanedVariables
+  | "remove_empty_quantifications" => some removeEmptyQuantifications
+  | "join_nested_quantifiers" => some joinNestedQuantifiers
+  | "remove_double_negation" => some removeDoubleNegation
+  | "substitute_defined_variables" => some substituteDefinedVariables
+  | "restrict_quantifier_domain" => some restrictQuantifierDomain
+  | "extend_quantifier_scope" => some extendQuantifierScope
+  | "simplify_transitive_equality" => some simplifyTransitiveEquality
+  | _ => none
+
+def portfolioByName : String → Option Portfolio
+  | "intuitionistic" => some .intuitionistic | "ht" => some .ht | "classic" => some .classic
+  | _ => none
+
+def strategyByName : String → Option Strategy
+  | "shallow" => some .shallow | "recursive" => some .recursive | "fixpoint" => some .fixpoint
+  | _ => none
 
 def respond (req : Sexp) : Sexp :=
   match req with
@@ -20,7 +50,38 @@ def respond (req : Sexp) : Sexp :=
     match Formula.ofSexp f with
     | some f => (gamma f).toSexp
     | none => .list [.atom "bad-request"]
-  | _ => .list [.atom "bad-request"]
+  | .list [.atom "substitute", f, v, t] =>
+    match Formula.ofSexp f, Var.ofSexp v, GTerm.ofSexp t with
+    | some f, some v, some t =>
+      if f.substPanics v t then .list [.atom "panic"] else (f.subst v t).toSexp
+    | _, _, _ => bad
+  | .list [.atom "rewrite", .atom name, f] =>
+    match Formula.ofSexp f, rewriteByName name with
+    | some f, some r => (r f).toSexp
+    | _, _ => bad
+  | .list [.atom "simplify", .atom p, .atom s, fuel, f] =>
+    match Formula.ofSexp f, portfolioByName p, strategyByName s, fuel.asNat? with
+    | some f, some p, some s, some fuel =>
+      let (g, ok) := simplifyWith p s fuel f
+      .list [.atom (if ok then "ok" else "timeout"), g.toSexp]
+    | _, _, _, _ => bad
+  | .list [.atom "free_vars", f] =>
+    match Formula.ofSexp f with
+    | some f => .list (f.fv.map Var.toSexp)
+    | none => bad
+  | .list [.atom "cex_equiv", .atom mode, f, g, seed, tries] =>
+    match Formula.ofSexp f, Formula.ofSexp g, seed.asNat?, tries.asNat? with
+    | some f, some g, some seed, some tries => cexEquiv (mode == "ht") f g seed tries
+    | _, _, _, _ => bad
+  | .list [.atom "cex_gamma", f, g, seed, tries] =>
+    match Formula.ofSexp f, Formula.ofSexp g, seed.asNat?, tries.asNat? with
+    | some f, some g, some seed, some tries => cexGamma f g seed tries
+    | _, _, _, _ => bad
+  | .list [.atom "cex_subst", f, v, t, g, seed, tries] =>
+    match Formula.ofSexp f, Var.ofSexp v, GTerm.ofSexp t, Formula.ofSexp g, seed.asNat?, tries.asNat? with
+    | some f, some v, some t, some g, some seed, some tries => cexSubst f v t g seed tries
+    | _, _, _, _, _, _ => bad
+  | _ => bad
 
 partial def loop (h : IO.FS.Stream) (out : IO.FS.Stream) : IO Unit := do
   let line ← h.getLine
